@@ -463,6 +463,11 @@ func createStrFunctions() { //nolint:funlen // we do have quite a few, yes.
 		}
 		inp := args[1].(object.String).Value
 		repl := args[2].(object.String).Value
+		if len(repl) > 0 {
+			// Every match is replaced by the template: check the memory it takes before building it (not after).
+			matches := len(re.FindAllStringIndex(inp, -1))
+			object.MustBeOk((len(inp) + matches*len(repl)) / object.ObjectSize)
+		}
 		newStr := re.ReplaceAllString(inp, repl)
 		return object.String{Value: newStr}
 	}
